@@ -40,6 +40,10 @@ type Restrict struct {
 	NoImages    bool // no pre-encoded DCT / JBIG2 / CCITTFax streams
 	Bulk        bool // now and then a program writes thousands of small objects
 	WrongLength bool // now and then OpenStream gets a /Length that disagrees with the data
+	// HostileStreams: now and then a stream carries a forged LZW, JPEG or
+	// JBIG2 body (hostile, not necessarily decodable; no expectation is
+	// recorded for it - for checks that only walk the file)
+	HostileStreams bool
 }
 
 // Config is the drawn configuration.
@@ -615,6 +619,33 @@ func (x *exec) opPutStream() {
 	lbl := x.label("putstm")
 	ref := x.takeStreamRef(lbl)
 	dict := x.streamDict(lbl)
+	if x.r.HostileStreams && x.t.Bool(lbl+".hostile", 1, 5) {
+		var name pdf.Name
+		var raw []byte
+		var parms pdf.Dict
+		switch x.t.Draw(lbl+".hostile.kind", 3) {
+		case 0:
+			var ec int
+			raw, ec, _ = forge.LZW(x.t, lbl+".lz")
+			name, parms = "LZWDecode", pdf.Dict{"EarlyChange": pdf.Integer(ec)}
+		case 1:
+			raw, _ = forge.JPEG(x.t, lbl+".fj")
+			name = "DCTDecode"
+		default:
+			raw, _, _ = forge.JBIG2(x.t, lbl+".jb")
+			name = "JBIG2Decode"
+		}
+		dict["Filter"] = name
+		if parms != nil {
+			dict["DecodeParms"] = parms
+		}
+		x.res.OpNames = append(x.res.OpNames, fmt.Sprintf("puthostile %d %s len=%d", ref.Number(), name, len(raw)))
+		if x.fail("Put(hostile stream)", x.w.Put(ref, pdf.NewStream(dict, raw))) {
+			return
+		}
+		x.res.Probes["forged hostile stream ("+string(name)+")"]++
+		return
+	}
 	if !x.r.SafeText && !x.r.NoImages && x.t.Bool(lbl+".image", 1, 5) {
 		if name, parms, raw, decoded, ok := imageStream(x.t, lbl+".img", x.cfg.Version); ok {
 			dict["Filter"] = name
